@@ -604,7 +604,8 @@ def read_topmatter(text: str | Iterator[str]) -> dict[str, Any] | None:
         top_matter.append(line.rstrip() + "\n")
     try:
         metadata = yaml.safe_load("".join(top_matter))
-    except (yaml.YAMLError, ValueError) as err:
+    except (yaml.YAMLError, ValueError, RecursionError) as err:
+        # RecursionError: collections nested deeper than the recursion limit
         raise TopmatterReadError("Malformed YAML") from err
     if not isinstance(metadata, dict):
         raise TopmatterReadError(f"YAML is not a dict: {type(metadata)}")
